@@ -36,8 +36,10 @@ Failed(r) ==
          (IF r.relres <= TolSolver THEN {} ELSE {"C06_relation_" \o r.scheme})
          \cup (IF r.tadv <= TolRoundoff THEN {} ELSE {"C06_time"})
     [] r.kind = "amp" ->
+         \* r.amp: the factor the scheme defines, computed by the harness; TLC recomputes it exactly from z and dt (the two
+         \* must agree) and the observed float must lie within the solver tolerance of it (r.amperr, in ulps)
          (IF FromPair(r.amp) = Expected(r) /\ r.amperr <= TolSolver THEN {} ELSE {"C06_amplification_" \o r.scheme})
-         \cup (IF RLe(FromPair(r.z), Zero) => RLe(RAbs(FromPair(r.amp)), One) THEN {} ELSE {"C06_growth"})
+         \cup (IF r.grow = 0 /\ (RLe(FromPair(r.z), Zero) => RLe(RAbs(Expected(r)), One)) THEN {} ELSE {"C06_growth"})
     [] r.kind = "grow" -> IF r.grow <= TolRoundoff THEN {} ELSE {"C06_growth"}
     [] r.kind = "jac"  -> IF r.jacerr <= TolSolver THEN {} ELSE {"C06_jacobian"}
     [] OTHER -> {"unknown_record"}
